@@ -4,6 +4,7 @@ import (
 	"fmt"
 	"go/types"
 	"math/big"
+	"strings"
 
 	"golang.org/x/tools/go/ssa"
 )
@@ -95,6 +96,20 @@ func init() {
 				mn := vc.memName(types.Typ[types.Byte])
 				mem := fr.cur.Get(mn)
 				arr := sel(mem, sp.Base)
+				// byte decomposition, stated linearly: v == sum b_k * 256^k with 0 <= b_k <= 255
+				// (unique for 0 <= v < 2^(8w); equivalent to the div/mod form, far easier for the solvers)
+				_, isLit := litVal(v)
+				var bs []Term
+				if !isLit {
+					var sum []Term
+					for k := 0; k < w; k++ {
+						b := vc.S.FreshConst(fmt.Sprintf("byte%d", k), "Int")
+						vc.S.Assert("(isbyte " + b + ")")
+						bs = append(bs, b)
+						sum = append(sum, mul(b, intLit(pow2(8*k))))
+					}
+					vc.S.Assert(eq(v, "(+ "+strings.Join(sum, " ")+")"))
+				}
 				for i := 0; i < w; i++ {
 					shift := i
 					if bo.be {
@@ -103,10 +118,8 @@ func init() {
 					var b Term
 					if lv, ok := litVal(v); ok {
 						b = intLit(new(big.Int).And(new(big.Int).Rsh(lv, uint(8*shift)), big.NewInt(255)))
-					} else if shift == 0 {
-						b = "(mod " + v + " 256)"
 					} else {
-						b = "(mod (div " + v + " " + pow2(8*shift).String() + ") 256)"
+						b = bs[shift]
 					}
 					arr = sto(arr, add(sp.Off, intLit64(int64(i))), b)
 				}
@@ -209,7 +222,10 @@ func (vc *VC) now(fr *Frame) Term {
 	return t
 }
 
-// lockEvent: entering a critical section havocs the fields declared guarded by the mutex.
+// lockEvent tracks the set of held mutexes. Re-acquiring a mutex that this
+// function already released havocs the fields it guards (other threads may
+// have run in between); the first acquisition sees the entry state, which is
+// arbitrary anyway (lockset obligations ensure no guarded access precedes it).
 func (fr *Frame) lockEvent(in ssa.Instruction, mu *Val, acquire bool) {
 	vc := fr.vc
 	if mu == nil || mu.P == nil {
@@ -221,19 +237,15 @@ func (fr *Frame) lockEvent(in ssa.Instruction, mu *Val, acquire bool) {
 		return
 	}
 	fr.held[key] = true
-	c := fr.c
-	if fr.inlined && c == nil {
-		return
-	}
+	vc.acquired[key]++
 	guarded := vc.guardedBy(mu.P.Heap)
-	if len(guarded) == 0 {
+	if len(guarded) == 0 || vc.acquired[key] < 2 {
 		return
 	}
 	only := map[string]bool{}
 	for _, g := range guarded {
 		only[g] = true
 	}
-	// other threads may have changed the guarded fields of this object since we last held the lock
 	pre := fr.cur
 	post := pre.Havoc(only, "lk")
 	for _, g := range guarded {
@@ -241,7 +253,40 @@ func (fr *Frame) lockEvent(in ssa.Instruction, mu *Val, acquire bool) {
 		vc.S.Assert(fmt.Sprintf("(forall ((r Int)) (! (=> (not (= r %s)) (= (select %s r) (select %s r))) :pattern ((select %s r))))", mu.P.Ref, newA, oldA, newA))
 	}
 	fr.cur = post
-	vc.Assumptions["lock regions are atomic; fields guarded by a mutex are havocked at each acquisition (rely: other threads preserve declared invariants only)"] = true
+	vc.Assumptions["lock regions are atomic; fields guarded by a mutex are havocked when the mutex is re-acquired within a function (other threads may have run)"] = true
+}
+
+// locksetCheck: an access to a field declared guarded must happen with its mutex held.
+func (fr *Frame) locksetCheck(in ssa.Instruction, p *Ptr, what string) {
+	vc := fr.vc
+	if p == nil || p.Obj || fr.c == nil || !fr.c.Checks["lockset"] {
+		return
+	}
+	mu, ok := vc.guardOf[p.Heap]
+	if !ok {
+		return
+	}
+	// objects allocated by this function are not yet shared
+	for _, a := range vc.allocs {
+		if a == p.Ref {
+			return
+		}
+	}
+	key := mu + "@" + p.Ref
+	cond := "false"
+	if fr.held[key] {
+		cond = "true"
+	}
+	ck := "lockset@" + FuncName(fr.fn)
+	n := vc.callCount[ck]
+	vc.callCount[ck] = n + 1
+	pos := vc.P.SSA.Fset.Position(in.Pos())
+	anchor := fmt.Sprintf("#%d", n)
+	if fr.inlined {
+		anchor = FuncName(fr.fn) + anchor
+	}
+	vc.addObl(&Obligation{Kind: "lockset", Anchor: anchor, Props: fr.c.Props, Desc: fmt.Sprintf("%s of %s at %s:%d happens with its mutex held", what, shortType(p.Heap), shortFile(pos.Filename), pos.Line),
+		File: pos.Filename, Line: pos.Line, Goals: []Goal{{fr.here(), cond}}, Mark: vc.S.Mark()})
 }
 
 // guardedBy returns the heap names declared `guarded <mutexfield>: f1, f2` for the mutex field.
